@@ -173,7 +173,7 @@ def run_check(spec, tier, seed, replay=None):
             return rep.finish(write_evidence=False)
         mok = model_ok.get(part.model_exe, False)
         io, ioc, ierr, mo, moc, merr = _run_one(part, exe, lines, mok)
-        bad = safe_oracle(part, lines, io) if ioc == "ok" else [("safety:" + ioc, ierr[-500:], len(io))]
+        bad = safe_oracle(part, lines, io) if ioc == "ok" else [(core.safety_key(ioc, ierr), ierr[-500:], len(io))]
         d = part.diff(lines, io, mo) if (mok and part.compare_model and moc == "ok") else None
         for key, what, idx in bad:
             print("replay: property fails at op %d: %s %s" % (idx, key, what))
@@ -218,7 +218,7 @@ def run_check(spec, tier, seed, replay=None):
             outcomes[ioc] = outcomes.get(ioc, 0) + 1
             if ioc != "ok":
                 if part.safety_is_violation(ioc):
-                    all_oracle_fail.append((part, name, h, "safety:%s" % ioc,
+                    all_oracle_fail.append((part, name, h, core.safety_key(ioc, ierr),
                                             "implementation outcome %s after %d ops: %s" % (ioc, len(io), ierr[-600:]), len(io)))
                 continue
             for key, what, idx in part.oracle(h, io):
@@ -262,7 +262,7 @@ def run_check(spec, tier, seed, replay=None):
         def fails(c):
             io, ioc, ierr = core.run_impl(exe, c, part.harness_args, timeout=part.timeout)
             if key.startswith("safety:"):
-                return ioc == key.split(":", 1)[1]
+                return ioc == key.split(":")[1]
             return ioc == "ok" and any(k == key for k, _, _ in safe_oracle(part, c, io))
         return core.ddmin(h, fails, budget=100 if tier == "quick" else 400, shrink_line=part.shrink_line)
 
@@ -300,7 +300,7 @@ def run_check(spec, tier, seed, replay=None):
                 def w2(h, part=part, exe=exe):
                     io, ioc, ierr = core.run_impl(exe, h, part.harness_args, timeout=part.timeout)
                     if ioc != "ok":
-                        return (part, h, "safety:" + ioc, ierr[-400:], len(io)) if part.safety_is_violation(ioc) else None
+                        return (part, h, core.safety_key(ioc, ierr), ierr[-400:], len(io)) if part.safety_is_violation(ioc) else None
                     for key, what, idx in safe_oracle(part, h, io):
                         if not rep.is_known(key):
                             return (part, h, key, what, idx)
